@@ -493,7 +493,8 @@ def _relabel_mutations_node(
     sequence_length = remove_position[-1]
 
     output = np.full(num_mutations, tskit.NULL, dtype=np.int32)
-    nodes_map = np.full(num_nodes, tskit.NULL, dtype=np.int32)
+    # nodes that are not (yet) in any edge keep their original ID
+    nodes_map = np.arange(num_nodes, dtype=np.int32)
     a, b, m = 0, 0, 0
     left = 0.0
     while left < sequence_length:
@@ -518,6 +519,10 @@ def _relabel_mutations_node(
             assert nodes_map[mutations_node[m]] != tskit.NULL
             output[m] = nodes_map[mutations_node[m]]
             m += 1
+
+    while m < num_mutations:  # mutations beyond the rightmost edge
+        output[m] = nodes_map[mutations_node[m]]
+        m += 1
 
     return output
 
